@@ -311,3 +311,15 @@ def grid_index_column_round_trips(n: int, mask: int, a: int, b: int, c: int, d: 
             assert back[m] is None, "an object without grid stays without"
         else:
             assert back[m] is not None and eq(back[m], idx[m]), "same grid index"
+
+
+@lemma(gen={"a": (-9, 9), "b": (-9, 9), "c": (-9, 9)})
+def unknown_location_label_is_rejected_on_read(a: int, b: int, c: int):
+    """a type label that no packer writes is refused (ValueError) instead of being read as some location"""
+    for label in ("X", "", "i", "Coordinate"):
+        try:
+            layout._unpackLocations([label], [[to_real(a), to_real(b), to_real(c)]])
+            raised = False
+        except ValueError:
+            raised = True
+        assert raised
